@@ -443,7 +443,7 @@ class DiHypergraph:
         remove_node
 
         """
-        for n in nodes:
+        for n in list(nodes):  # the iterable may be a live view of this network
             if n not in self._node:
                 warn(f"Node {n} not in dihypergraph")
                 continue
@@ -889,7 +889,7 @@ class DiHypergraph:
         remove_edge : remove a single edge.
 
         """
-        for idx in ebunch:
+        for idx in list(ebunch):  # the iterable may be a live view of this network
             edge = self._edge[idx].copy()
 
             for node in edge["in"]:
